@@ -30,7 +30,7 @@ ASSUMPTIONS = [
     "exactly-once is demanded only in histories where the connection stayed open",
     "a message timeout is measured from the first emission seen on the wire (weaker than the code, cannot false-alarm)",
 ]
-BUDGET_S = {"quick": 75, "thorough": 800}
+BUDGET_S = {"quick": 55, "thorough": 800}
 EPS = 1e-6
 
 
